@@ -55,7 +55,7 @@ CHECKS = {
             "DESIGN.md 3 C13"),
     "C09": ("exploration",
             "runtime monitoring: a probe observer after every operation records the expansion values (argv), the environment it received and its cwd; $? probes after cd; relative-redirection files located afterwards; oracle = reference model of shell/exported variables, cwd, previous dir",
-            "Random histories of <=30 assignment/prefix/export/unset/read/cd/redirection operations over a generated tree with symlinks, non-directories and missing entries; every intermediate state is observed, not only the final one; values are written between quotes, with escaped blanks, or copied from another name ($N, ${N}, "$N").",
+            "Random histories of <=30 assignment/prefix/export/unset/read/cd/redirection operations over a generated tree with symlinks, non-directories and missing entries; every intermediate state is observed, not only the final one; values are written between quotes, with escaped blanks, or copied from another name ($N, ${N}, \"$N\").",
             "model in lib/c09.py; symlinks resolved with realpath as cd canonicalises",
             "DESIGN.md 3 C09"),
     "C19": ("exploration",
